@@ -85,7 +85,9 @@ def mtsBatch (bs nc batch : Nat) : Nat × Nat :=
   let last' := max first' (last - 1)
   (first', last')
 
-/-- number of batches as mtscomp computes it: ceil(n_chunks / batch_size) -/
+/-- number of batches as mtscomp computes it: ceil(n_chunks / batch_size).  `bs = 0` (a reader created with
+`n_threads=0`: what `get_ephys_reader(<path>.cbin)` does on a one-cpu machine, `cpu_count() // 2`): the real division
+raises ZeroDivisionError while the reader is opened; Lean's `/ 0 = 0` gives no batch (`iterChunksMts_bs_zero`). -/
 def nBatches (bs nc : Nat) : Nat := (nc + bs - 1) / bs
 
 /-- index intervals yielded by the compressed iterator (including the trailing "last chunk"). -/
